@@ -115,3 +115,101 @@ def per_method_obligation(run):
         run.violated(title, 'M', 'check_methods-skips-check_method', {'detail': bad[:2], 'native': [b for b in nb if 'same-name' in str(b)][:2]}, rep, queries=nq, detail=bad[0][:300])
     else:
         run.holds(title, 'M', queries=nq, bound='all %d feasible CFG paths of check_methods::{closure#0}' % n)
+
+
+def scope_facts(prog):
+    """Data flow inside validate's per-file closure (engine M, every feasible CFG path that reaches resolve_types):
+      resolve_types(&mut ast, &I, &D, key map, diags)   with I = ast.imports.iter().map(|i| i.get_qualified_name()).collect::<HashSet>()
+                                                         and  D = the same over ast.declared_parcelables, neither touched in between;
+      check_imports(&ast.imports, &resolved, key map, diags); check_declared_parcelables(&ast.declared_parcelables, &import map, &resolved, diags).
+    -> (ok, feasible paths, list of problems)"""
+    structs, _enums = mir.layouts()
+    fi, fd = structs['Aidl'].index('imports'), structs['Aidl'].index('declared_parcelables')
+    cl = [f for f in prog.fns if re.search(r'(^|::)validate::\{closure#0\}$', f.name)]
+    if len(cl) != 1:
+        raise mir.Unsupported('validate closure: %d candidates' % len(cl))
+    bad, n = [], 0
+    for pc, ev in mir.cfg_paths(cl[0]):
+        s = z3.Solver(); s.add(*pc)
+        if s.check() != z3.sat:
+            continue
+        calls = [(c, a, d) for (_b, c, a, d) in ev if c != '=']
+        rt = [x for x in calls if re.search(r'(^|::)resolve_types$', x[0])]
+        if not rt:
+            continue
+        n += 1
+        defs = {}
+        for (_b, c, a, d) in ev:
+            defs.setdefault(d, []).append((c, a))
+
+        def single(l):
+            v = defs.get(l, [])
+            return v[0] if len(v) == 1 else None
+
+        def through(l, depth=0):
+            """follow plain copies / shared borrows back to the defining call or place"""
+            v = single(l)
+            if v is None or depth > 10:
+                return l, None
+            c, a = v
+            if c == '=':
+                m = re.match(r'^_\d+ = (?:&|copy |move |no_retag copy )(_\d+)$', a)
+                if m:
+                    return through(m.group(1), depth + 1)
+                return l, ('=', a)
+            return l, (c, a)
+
+        def name_set(arg, field, what):
+            l, d = through(arg.split()[-1])
+            if not d or 'Iterator>::collect::<std::collections::HashSet<String>>' not in d[0] and 'Iterator>::collect::<HashSet<String>>' not in d[0]:
+                bad.append('%s handed to resolve_types is not a freshly collected HashSet<String> (%s)' % (what, (d or ('?',))[0][-50:])); return None
+            if any(re.search(r'&mut %s\b' % l, a) for (_b, c, a, _d) in ev if c == '='):
+                bad.append('%s is modified after being collected' % what)
+            _l2, d2 = through(d[1].split()[-1])
+            if not d2 or 'Iterator>::map::<String' not in d2[0]:
+                bad.append('%s is not a map over the statements (%s)' % (what, (d2 or ('?',))[0][-50:])); return None
+            src = mir._split_top(d2[1])[0].split()[-1]
+            kclo = re.search(r'\{closure@([^}]*)\}', d2[0])
+            _l3, d3 = through(src)
+            if not d3 or not re.search(r'<impl \[Import\]>::iter$', d3[0]):
+                bad.append('%s does not iterate a slice of Import' % what); return None
+            _l4, d4 = through(d3[1].split()[-1])
+            if not d4 or 'Deref>::deref' not in d4[0]:
+                bad.append('%s: unexpected source %s' % (what, (d4 or ('?',))[0][-40:])); return None
+            _l5, d5 = through(d4[1].split()[-1])
+            m = re.search(r'= &\((_\d+)\.(\d+): std::vec::Vec<ast::Import>\)', d5[1]) if d5 and d5[0] == '=' else None
+            if not m or int(m.group(2)) != field:
+                bad.append('%s is not collected from the file\'s own field #%d' % (what, field)); return None
+            kf = [f for f in prog.fns if kclo and ('{closure@%s}' % kclo.group(1)) in (f.params[0][1] if f.params else '')]
+            body = ' '.join(' '.join(b) for f in kf for b in f.blocks.values())
+            if not re.search(r'_0 = (?:ast::)?Import::get_qualified_name\(copy _2\)', body):
+                bad.append('%s: the mapping closure is not |i| i.get_qualified_name()' % what)
+            return m.group(1)
+        a = mir._split_top(rt[0][1])
+        ast_i = name_set(a[1], fi, 'the import set')
+        ast_d = name_set(a[2], fd, 'the forward-declaration set')
+        l0, d0 = through(a[0].split()[-1])
+        m0 = re.search(r'= &mut (_\d+)$', d0[1]) if d0 and d0[0] == '=' else None
+        if ast_i and ast_d and (not m0 or not (m0.group(1) == ast_i == ast_d)):
+            bad.append('the sets are not collected from the tree that is being resolved')
+        ci = [x for x in calls if re.search(r'(^|::)check_imports$', x[0])]
+        cd = [x for x in calls if re.search(r'(^|::)check_declared_parcelables$', x[0])]
+        if len(ci) != 1 or len(cd) != 1:
+            bad.append('check_imports / check_declared_parcelables are not called exactly once after resolve_types'); continue
+
+        def field_of(arg):
+            _l, d = through(arg.split()[-1])
+            if d and 'Deref>::deref' in d[0]:
+                _l, d = through(d[1].split()[-1])
+            m = re.search(r'= &\((_\d+)\.(\d+): std::vec::Vec<ast::Import>\)', d[1]) if d and d[0] == '=' else None
+            return (m.group(1), int(m.group(2))) if m else None
+        ai, ad = mir._split_top(ci[0][1]), mir._split_top(cd[0][1])
+        if field_of(ai[0]) != (ast_i, fi):
+            bad.append('check_imports does not receive the file\'s own imports')
+        if field_of(ad[0]) != (ast_i, fd):
+            bad.append('check_declared_parcelables does not receive the file\'s own forward declarations')
+        if through(ai[1].split()[-1])[0] != rt[0][2] or through(ad[2].split()[-1])[0] != rt[0][2]:
+            bad.append('the resolved set handed to the import / declaration checks is not the one resolve_types returned')
+        if through(ad[1].split()[-1])[0] != ci[0][2]:
+            bad.append('the import map handed to check_declared_parcelables is not the one check_imports returned')
+    return (not bad and n > 0), n, sorted(set(bad)) or (['no feasible path reaches resolve_types'] if not n else [])
